@@ -419,6 +419,12 @@ def observe(world, raw, needles, full=None):
                         continue
                     where = 'script' if el.tag in ('script', 'style') else 'chardata'
                     _find_echo(needles, where, el.text or '', echo)
+                    if where == 'script':
+                        # request text inside a script is inside a string literal: a backslash there escapes what follows it
+                        # (a value that ends in one swallows the closing quote)
+                        for src, sv in sorted((full or {}).items()):
+                            if '\\' in sv and len(sv) > 4 and sv in (el.text or ''):
+                                o['markup'].append('the text of %s is in a script with its backslash unescaped' % src)
                     _find_echo(needles, 'chardata', el.tail or '', echo)
                     for an, av in el.attrib.items():
                         _find_echo(needles, 'attr', av, echo)
